@@ -13,7 +13,11 @@ package reader
 func verifArbReader() (r *Reader, orig []byte, cnt int) {
 	n := verifNondetInt()
 	verifAssume(verifAll(n >= 0, n < 1<<40))
-	orig = verifNondetBytes(n)
+	// the buffer may be a window of a larger array (b[:n] of a pooled receive buffer): its
+	// capacity is anything from n upwards, and the octets behind the window are arbitrary too
+	c := verifNondetInt()
+	verifAssume(verifAll(c >= n, c < 1<<40))
+	orig = verifNondetBytesCap(n, c)
 	cnt = verifNondetInt()
 	verifAssume(verifAll(cnt >= 0, cnt <= n))
 	// the state NewReader(orig) reaches after consuming cnt octets
